@@ -414,6 +414,47 @@ class SealedError(Exception):
     pass
 
 
+def _sealed_container(self, *args, **kwargs):
+    raise SealedError("Cannot modify a parameter value of a sealed configuration")
+
+
+class SealedList(list):
+    """The value of a list parameter of a sealed configuration (read-only)"""
+
+    append = extend = insert = remove = pop = clear = sort = reverse = _sealed_container
+    __setitem__ = __delitem__ = __iadd__ = __imul__ = _sealed_container
+
+    def __reduce__(self):
+        return (list, (list(self),))
+
+
+class SealedDict(dict):
+    """The value of a dictionary parameter of a sealed configuration (read-only)"""
+
+    pop = popitem = clear = update = setdefault = _sealed_container
+    __setitem__ = __delitem__ = __ior__ = _sealed_container
+
+    def __reduce__(self):
+        return (dict, (dict(self),))
+
+
+def sealed_value(value):
+    """Read-only version of the lists and dictionaries of a parameter value"""
+    if isinstance(value, list):
+        return SealedList(sealed_value(el) for el in value)
+    if isinstance(value, dict):
+        return SealedDict((key, sealed_value(el)) for key, el in value.items())
+    return value
+
+
+def unsealed_value(value):
+    if isinstance(value, list):
+        return [unsealed_value(el) for el in value]
+    if isinstance(value, dict):
+        return {key: unsealed_value(el) for key, el in value.items()}
+    return value
+
+
 class TaggedValue:
     def __init__(self, value):
         self.value = value
@@ -876,6 +917,11 @@ class ConfigInformation:
                             ), "generator has either two parameters (context and config), or none"
                         config.__xpm__.set(k, value, bypass=True)
 
+                # The lists and dictionaries held as values are frozen too
+                for name, value in config.__xpm__.values.items():
+                    if isinstance(value, (list, dict)):
+                        config.__xpm__.values[name] = sealed_value(value)
+
                 config.__xpm__._sealed = True
 
         Sealer(context, recurse_task=True)(self.pyobject)
@@ -893,6 +939,9 @@ class ConfigInformation:
 
             def postprocess(self, stub, config: Config, values):
                 config.__xpm__._sealed = False
+                for name, value in config.__xpm__.values.items():
+                    if isinstance(value, (list, dict)):
+                        config.__xpm__.values[name] = unsealed_value(value)
                 config.__xpm__._raw_identifier = None
                 config.__xpm__._full_identifier = None
 
@@ -1663,6 +1712,9 @@ class ConfigInformation:
                     xpminfo._identifier = Identifier.from_state_dict(
                         definition["identifier"]
                     )
+                for name, value in xpminfo.values.items():
+                    if isinstance(value, (list, dict)):
+                        xpminfo.values[name] = sealed_value(value)
                 xpminfo._sealed = True
 
         return objects
